@@ -694,9 +694,13 @@ def serve_unix(
         else:
             _serve_socket_sequential(server, sock, UnixTransport)
     finally:
-        sock.close()
+        # Unlink before closing: while the listening socket is open its inode
+        # cannot be freed, so the (st_dev, st_ino) identity test cannot match a
+        # successor's socket that was handed the same inode number after a
+        # launcher replaced our (closed, hence stale) entry.
         if bound_identity is not None:
             _unlink_bound_unix_socket(path, bound_identity)
+        sock.close()
 
 
 def _serve_socket_sequential(
